@@ -11,8 +11,9 @@ import S2Proofs.Properties.C01_Hilbert
 open S2 S2.CellID S2.Hilbert S2.STUV
 namespace S2Proofs.C01
 
-/-- FULL discrete statement for edge neighbours (not proved: needs the float wrap on all six faces).
-    "Touches" is expressed for the same-face case in `edgeNeighbors_sameFace_partial` only. -/
+/-- FULL discrete statement for edge neighbours.  PROVED as `S2Proofs.C01.edgeNeighbors_correct` in
+    `Properties/C01_Wrap.lean` (all cells, all faces, float wrap proved); `edgeNeighbors_all_cells` there adds
+    "shares an edge on the cube" for each neighbour. -/
 def EdgeNeighborsCorrect : Prop :=
   ∀ id : CellID, isValid id = true →
     ∃ n0 n1 n2 n3, edgeNeighbors id = [n0, n1, n2, n3] ∧
